@@ -75,6 +75,8 @@ def record(args):
                 trk['duct'] = [[(ob.runD[i][s_], hd.get((i, s_), 0.0))
                                 for s_ in range(ob.nslots[i])]
                                for i in range(len(r.assemblies))]
+                trk['pin'] = [ob.profP[i] if ob.haspin[i] else None
+                              for i in range(len(r.assemblies))]
                 tables_ok = tables.check_summary(
                     dassh, r, str(d), trk,
                     units=case.get('setup', {}).get('Units'))
